@@ -1,6 +1,8 @@
 package main
 
 import (
+	"encoding/base64"
+	"encoding/hex"
 	"encoding/json"
 	"math/big"
 	"strings"
@@ -58,4 +60,90 @@ func fromGoJSON(v interface{}) *JSON {
 		return o
 	}
 	return &JSON{Kind: "invalid"}
+}
+
+func encodeConcrete(b, kind string) string {
+	switch kind {
+	case "base64":
+		return base64.StdEncoding.EncodeToString([]byte(b))
+	case "base64raw":
+		return base64.RawStdEncoding.EncodeToString([]byte(b))
+	case "base64url":
+		return base64.URLEncoding.EncodeToString([]byte(b))
+	case "base64urlraw":
+		return base64.RawURLEncoding.EncodeToString([]byte(b))
+	case "hex":
+		return hex.EncodeToString([]byte(b))
+	}
+	return b
+}
+
+func decodeConcrete(s, kind string) (string, bool) {
+	var d []byte
+	var err error
+	switch kind {
+	case "base64":
+		d, err = base64.StdEncoding.DecodeString(s)
+	case "base64raw":
+		d, err = base64.RawStdEncoding.DecodeString(s)
+	case "base64url":
+		d, err = base64.URLEncoding.DecodeString(s)
+	case "base64urlraw":
+		d, err = base64.RawURLEncoding.DecodeString(s)
+	case "hex":
+		d, err = hex.DecodeString(s)
+	}
+	return string(d), err == nil
+}
+
+// renderConcreteJSON renders a document whose leaves are constants (ok=false otherwise).
+func renderConcreteJSON(j *JSON) (string, bool) {
+	switch j.Kind {
+	case "null":
+		return "null", true
+	case "bool":
+		if j.B.Const {
+			if j.B.BVal {
+				return "true", true
+			}
+			return "false", true
+		}
+	case "num":
+		if j.N.Const && j.N.K == KInt {
+			return j.N.IVal.String(), true
+		}
+	case "str":
+		if j.S.Const {
+			b, _ := json.Marshal(j.S.SVal)
+			return string(b), true
+		}
+	case "arr":
+		parts := []string{}
+		for _, e := range j.Elems {
+			s, ok := renderConcreteJSON(e)
+			if !ok {
+				return "", false
+			}
+			parts = append(parts, s)
+		}
+		return "[" + strings.Join(parts, ",") + "]", true
+	case "obj":
+		parts := []string{}
+		for i, k := range j.Keys {
+			if !j.Present[i].Const {
+				return "", false
+			}
+			if !j.Present[i].BVal {
+				continue
+			}
+			s, ok := renderConcreteJSON(j.Vals[i])
+			if !ok {
+				return "", false
+			}
+			kb, _ := json.Marshal(k)
+			parts = append(parts, string(kb)+":"+s)
+		}
+		return "{" + strings.Join(parts, ",") + "}", true
+	}
+	return "", false
 }
